@@ -100,7 +100,7 @@ def h_angle_sequence(c):
     for k in ("eps", "suc"):
         if k in c:
             kw[k] = dec(c[k])
-    with randint_bits(c.get("bits")) as stub:
+    with randint_bits(c.get("bits")) as stub, perturb_angseq(dec(c["perturb"]) if c.get("perturb") else None):
         seq = angle_sequence(list(p) if c.get("as_list") else numpy.array(p, dtype=float), **kw)
     return {"phis": enc(numpy.asarray(seq, dtype=float)), "len": len(seq)}
 
